@@ -922,7 +922,28 @@ def _split_args(s, i):
     return None, len(s)
 
 
-def inline_helpers(mir, s, max_rounds=4, skip=()):
+def simplify_projections(s):
+    """`Name{a, b}.1` -> `b` and `tuple{a}.0` -> `a`: a positional aggregate immediately projected is the projected operand"""
+    for _ in range(20):
+        hit = False
+        for m in re.finditer(r"((?:\w+::)*\w+)\{", s):
+            if m.group(1).startswith("phi"):
+                continue
+            args, end = _split_args(s, m.end() - 1)
+            if args is None:
+                continue
+            mp = re.match(r"^\.(\d+)\b", s[end:])
+            if not mp or int(mp.group(1)) >= len(args):
+                continue
+            s = s[:m.start()] + args[int(mp.group(1))] + s[end + mp.end():]
+            hit = True
+            break
+        if not hit:
+            break
+    return s
+
+
+def inline_helpers(mir, s, max_rounds=4, skip=(), kinds=None):
     """expand calls of small local helper functions in a canonical value string: `T::width(param1)` becomes the
     helper's own (loop-free, branch-free) result with its parameters replaced by the arguments.  This makes value rules
     insensitive to extracting or inlining a helper.  Helpers with branches, loops or ambiguous names are left alone."""
@@ -938,7 +959,7 @@ def inline_helpers(mir, s, max_rounds=4, skip=()):
         for m in list(re.finditer(r"((?:\w+::)+(?:\w+|\{closure#\d+\}))\(", s)):
             name = m.group(1)
             f = mir._short_index.get(name)
-            if f is None or name in skip:
+            if f is None or name in skip or (kinds is not None and f.kind not in kinds):
                 continue
             if f.key not in mir._ret_cache:
                 ok = not natural_loops(f) and not any(b["term"]["k"] == "switch" for b in f.blocks if not b["cleanup"])
@@ -961,7 +982,11 @@ def inline_helpers(mir, s, max_rounds=4, skip=()):
                 caps, _e = _split_args("(" + me.group(1) + ")", 0)
                 for k_, c_ in enumerate(caps or []):
                     body = body.replace("\x001\x00.%d" % k_, c_)
-                for i_, a_ in enumerate(args[1:]):
+                actual = args[1:]
+                if len(actual) == 1 and actual[0].startswith("tuple{") and actual[0].endswith("}"):
+                    actual, _e2 = _split_args(actual[0][5:], 0)
+                    actual = actual or []
+                for i_, a_ in enumerate(actual):
                     body = body.replace("\x00%d\x00" % (i_ + 2), a_)
             else:
                 if len(args) != len(f.inputs):
@@ -970,9 +995,102 @@ def inline_helpers(mir, s, max_rounds=4, skip=()):
                     body = body.replace("\x00%d\x00" % (i_ + 1), a_)
             if "\x00" in body:
                 continue
-            s = s[:m.start()] + body + s[end:]
+            s = simplify_projections(s[:m.start()] + body + s[end:])
             changed = True
             break
         if not changed:
             break
     return s
+
+
+def filled_in_complete_loop(fn, new_suffixes, insert_suffixes):
+    """`fn` returns a collection it creates empty (callee path ends with one of new_suffixes) and fills with exactly one
+    insert/push call (path ends with one of insert_suffixes) that is executed once for every item of a `for` loop: the
+    call is control dependent only on the loop's own `next()` test, and the loop is left only through that test.
+    Returns (source iterator text, [argument texts of the insert after the receiver]) or None."""
+    ex = Exprs(fn)
+    if not short_path_any(canon(ex.local(0)), new_suffixes):
+        return None
+    ins = [c for c in fn.calls() if short_path(c.rpath or "").endswith(tuple(insert_suffixes))]
+    if len(ins) != 1:
+        return None
+    c = ins[0]
+    if not short_path_any(canon(ex.operand(c.args[0])), new_suffixes):
+        return None
+    cdt = control_deps_transitive(fn)
+    tests = [(a, s_) for (a, s_) in cdt.get(c.bb, ()) if fn.blocks[a]["term"]["k"] == "switch"]
+    if len(tests) != 1:
+        return None
+    a, s_ = tests[0]
+    t = fn.blocks[a]["term"]
+    ce = canon(ex.operand(t["discr"]))
+    m = re.match(r"^discr\(Iterator@\w+::next\((.*)\)\)$", ce)
+    if not m or [v for (v, tb) in t["targets"] if tb == s_] != [1]:
+        return None
+    loops = [(h, body) for (h, body) in natural_loops(fn) if c.bb in body]
+    if len(loops) != 1 or a not in loops[0][1]:
+        return None
+    body = loops[0][1]
+    for bi in body:
+        b = fn.blocks[bi]
+        if b["cleanup"]:
+            continue
+        for x_ in fn.succs(bi):
+            if x_ in body or fn.blocks[x_]["cleanup"] or fn.blocks[x_]["term"]["k"] == "unreachable":
+                continue
+            if bi != a:
+                return None  # another way out of the loop (break / return): not every item is inserted
+    return m.group(1), [canon(ex.operand(x_)) for x_ in c.args[1:]]
+
+
+def short_path_any(text, suffixes):
+    return any(text == s_ + "()" or text.endswith("::" + s_ + "()") or text.startswith(s_ + "(") for s_ in suffixes)
+
+
+EACH_ADAPTORS = ("::try_for_each", "::for_each")
+
+
+def closure_loop_context(mir, cf):
+    """cf is a closure handed to `ITER.try_for_each(..)` / `ITER.for_each(..)` in its parent: the closure body is the
+    body of a loop over ITER (try_for_each stops at the first Err exactly as `?` in a `for` body does).
+    Returns (parent fn, the adaptor call, canonical ITER, [canonical captured values in the parent's terms]) or None."""
+    if cf.kind != "Closure" or cf.parent not in mir.fns:
+        return None
+    parent = mir.fns[cf.parent]
+    pex = Exprs(parent)
+    caps = None
+    for b in parent.blocks:
+        for st in b["stmts"]:
+            if st["k"] == "assign" and st["rv"]["k"] == "agg" and st["rv"].get("ak") == "closure" and st["rv"]["closure"] == cf.key:
+                if caps is not None:
+                    return None
+                caps = [canon(pex.operand(o)) for o in st["rv"]["ops"]]
+    if caps is None:
+        caps = []
+    site = None
+    for c in parent.calls():
+        if not (c.rpath or "").endswith(EACH_ADAPTORS) or len(c.args) != 2:
+            continue
+        e = strip_transparent(pex.operand(c.args[1]))
+        if e.k == "agg" and e.a[0] == "closure" and e.a[1] == cf.key:
+            if site is not None:
+                return None
+            site = c
+    if site is None:
+        return None
+    return parent, site, canon(pex.operand(site.args[0])), caps
+
+
+def lift_closure_canon(s, cctx):
+    """a canonical value of the closure body in the terms of the parent function, written the way the equivalent
+    `for x in ITER { body }` renders: captures become the captured values, the closure argument the loop variable"""
+    parent, site, it, caps = cctx
+    nxt = "range::next" if it.startswith("Range::Range{") else "Iterator@Iter::next"
+    elem = "(%s(IntoIterator@I::into_iter(%s)) as Some).0" % (nxt, it)
+    def sub(m):
+        if m.group(1) is not None:
+            return caps[int(m.group(1))] if int(m.group(1)) < len(caps) else m.group(0)
+        return elem
+
+    # one simultaneous pass: a captured `param2` of the parent must not be taken for the closure's own argument
+    return re.sub(r"\bparam1\.(\d+)\b|\bparam2\b", sub, s)
